@@ -93,7 +93,11 @@ fn cmd_drive(args: &[String]) -> i32 {
         let pre = drive::run_batch(ctx.clone(), Arc::new(Corpus { collisions: corpus.collisions.clone(), item_groups: corpus.item_groups.clone(), name_groups: corpus.name_groups.clone(), base: corpus.base.clone(), faults: corpus.faults.clone(),
                                                                derives: corpus.derives.clone(), env_names: vec![] }),
                                    Arc::new(RefCache::new()), seed ^ 0x5eed_d15c, 0, 24, jobs, 0, true);
-        corpus.env_names = pre.stats.seam_names.iter().map(|n| (n.clone(), envmodel::candidates(n, &repo))).collect();
+        // (TMPDIR / HOME / XDG_CACHE_HOME belong to the durable-state seam: they name the process's private directory.
+        // Handing them junk values would cut the code off from its own files — seeded change S130, whose cache lives
+        // under temp_dir(), went unseen that way: every open failed with ENOENT under TMPDIR=true.)
+        const OWNED: &[&str] = &["TMPDIR", "HOME", "XDG_CACHE_HOME", "PATH", "LD_PRELOAD"];
+        corpus.env_names = pre.stats.seam_names.iter().filter(|n| !OWNED.contains(&n.as_str())).map(|n| (n.clone(), envmodel::candidates(n, &repo))).collect();
     }
     let corpus = Arc::new(corpus);
     let refs = Arc::new(RefCache::new());
